@@ -58,6 +58,8 @@ fn translate_block(
     _endian: Endian,
     options: &Options,
 ) -> Result<BlockTranslationResult, Error> {
+    crate::translator::ensure_block_fits_address_space(address, bytes.len())?;
+
     // A vec which holds each lifted instruction in this block.
     let mut block_graphs: Vec<(u64, ControlFlowGraph)> = Vec::new();
 
